@@ -41,7 +41,9 @@ var c16Model = porcupine.Model{
 		want := st.Apply(input.(c16Op).Args)
 		got := output.(string)
 		okk := false
-		if want.IsError() {
+		if got == "<any>" {
+			okk = true // the reply was lost with the connection
+		} else if want.IsError() {
 			okk = strings.HasPrefix(got, "-")
 		} else {
 			okk = want.String() == got
@@ -308,7 +310,28 @@ func c16Run(c *fw.Ctx) {
 		}
 		return true
 	}
-	if !phase("p1_pairs_bound2", pairs, 2) || !phase("p1_pairs_requirepass_bound2", pairsPw, 2) || !c.Thorough() {
+	restarts := func(name string, bound int) bool {
+		list := c16RestartScenarios()
+		if c.Shard == 0 {
+			c.Count(name+"_scenarios", int64(len(list)))
+		}
+		for _, cs := range list {
+			if !c.Mine() {
+				continue
+			}
+			if c.Expired() {
+				c.Cap("phase %s (deviation bound %d) stopped by the internal deadline; see the %s_done counter", name, bound, name)
+				return false
+			}
+			c16RestartExplore(c, cs, bound)
+			c.Count(name+"_done", 1)
+		}
+		return true
+	}
+	if !phase("p1_pairs_bound2", pairs, 2) || !phase("p1_pairs_requirepass_bound2", pairsPw, 2) || !restarts("p1_restart_in_flight_bound1", 1) || !c.Thorough() {
+		return
+	}
+	if !restarts("p2_restart_in_flight_bound2", 2) {
 		return
 	}
 	_ = phase("p2_pairs_bound3", pairs, 3) &&
@@ -345,6 +368,23 @@ func c16Explore(c *fw.Ctx, cs c16Case, bound int, class string) {
 }
 
 func c16Replay(raw json.RawMessage) (string, bool, error) {
+	var probe struct {
+		Kind string `json:"kind"`
+	}
+	json.Unmarshal(raw, &probe)
+	if probe.Kind == "restart" {
+		var rc c16Restart
+		if err := json.Unmarshal(raw, &rc); err != nil {
+			return "", false, err
+		}
+		run := c16RestartExplorer(rc, 0).New()
+		r := vrt.Run(vrt.Options{Choices: rc.Choices}, run.Body, run.AtQuiet)
+		if r.Diverged != "" {
+			return "", false, fmt.Errorf("schedule does not replay: %s", r.Diverged)
+		}
+		v := run.Verdict(r)
+		return fmt.Sprintf("restart scenario %+v clause=%q %s obs=%s", rc, v.Clause, v.Detail, v.Obs), v.Clause != "", nil
+	}
 	var cs c16Case
 	if err := json.Unmarshal(raw, &cs); err != nil {
 		return "", false, err
@@ -364,7 +404,7 @@ func init() {
 	fw.Register(&fw.Prop{
 		ID:          "C16",
 		Level:       "model_checking",
-		Rule:        "for every unordered pair of operation kinds from {GET, SET, SETNX, GETSET, INCR, DECRBY, APPEND, MSETNX, DEL, INCRBY 0} (thorough: also triples, and pairs followed by reads): 2 (3) clients issue them concurrently on one shared key (MSETNX over two keys, one shared), initial state absent or '1' (and once more on a server with requirepass, every client sending AUTH first), through the real accept loop and connection goroutines, against (a) a reference store whose primitives are atomic steps each preceded by a scheduling point and (b) the instrumented example store (sync.Map operations are scheduling points); every schedule within deviation bound 2; thorough continues in phases, each complete only when its <phase>_done counter equals <phase>_scenarios: pairs at bound 3, pairs followed by a read on each side at bound 2, triples (reference store) at bound 2, pairs at bound 4, pairs+reads at bound 3, triples at bound 3; each complete execution yields a client-side history (invocation/response stamped with the scheduler's step counter) to which a final read-out of every key by a fresh connection is appended; porcupine checks the whole history for linearizability against the Redis model. A scenario is non-trivial when its schedules produce more than one distinct reply vector.",
+		Rule:        "for every unordered pair of operation kinds from {GET, SET, SETNX, GETSET, INCR, DECRBY, APPEND, MSETNX, DEL, INCRBY 0} (thorough: also triples, and pairs followed by reads): 2 (3) clients issue them concurrently on one shared key (MSETNX over two keys, one shared), initial state absent or '1' (and once more on a server with requirepass, every client sending AUTH first), through the real accept loop and connection goroutines, against (a) a reference store whose primitives are atomic steps each preceded by a scheduling point and (b) the instrumented example store (sync.Map operations are scheduling points); every schedule within deviation bound 2; plus 96 lifecycle scenarios (Restart or Stop+Start issued while a composite command of client A is held between its read and its first write by a slow store, client B writing the same key through the restarted server, then the held handler released; A's lost reply counts as executed-or-not; deviation bound 1, thorough 2); thorough continues in phases, each complete only when its <phase>_done counter equals <phase>_scenarios: pairs at bound 3, pairs followed by a read on each side at bound 2, triples (reference store) at bound 2, pairs at bound 4, pairs+reads at bound 3, triples at bound 3; each complete execution yields a client-side history (invocation/response stamped with the scheduler's step counter) to which a final read-out of every key by a fresh connection is appended; porcupine checks the whole history for linearizability against the Redis model. A scenario is non-trivial when its schedules produce more than one distinct reply vector.",
 		Assumptions: []string{"sequentially consistent interleavings", "histories of more than 3 clients or 2 operations per client are not explored"},
 		Run:         c16Run,
 		Replay:      c16Replay,
